@@ -144,7 +144,7 @@ func buildNatives() map[string]nativeFn {
 	// ---- standard library ----
 	m["errors.As"] = nativeErrorsAs
 	m["fmt.Sprintf"] = func(in *Interp, fn *ssa.Function, a []Value) Value {
-		return Str{S: in.sprintf(in.concStr(a[0], "format"), a[1].(Slice), nil)}
+		return in.sprintf(in.concStr(a[0], "format"), a[1].(Slice), nil)
 	}
 	m["fmt.Errorf"] = nativeErrorf
 	m["fmt.Sprint"] = func(in *Interp, fn *ssa.Function, a []Value) Value {
@@ -307,16 +307,19 @@ func nativeErrorf(in *Interp, fn *ssa.Function, a []Value) Value {
 	var wrapped *Iface
 	msg := in.sprintf(format, a[1].(Slice), &wrapped)
 	if wrapped == nil {
-		return Iface{T: types.NewPointer(in.lookupType("errors", "errorString")), V: in.newErrorString(msg)}
+		slot := new(Value)
+		*slot = Struct{msg}
+		return Iface{T: types.NewPointer(in.lookupType("errors", "errorString")), V: Ptr{O: in.newObj("errorString"), P: slot}}
 	}
 	slot := new(Value)
-	*slot = Struct{Str{S: msg}, *wrapped}
+	*slot = Struct{msg, *wrapped}
 	return Iface{T: types.NewPointer(in.lookupType("fmt", "wrapError")), V: Ptr{O: in.newObj("wrapError"), P: slot}}
 }
 
 // sprintf is a small model of fmt.Sprintf for the verbs parsley uses.
-func (in *Interp) sprintf(format string, args Slice, wrapped **Iface) string {
-	var sb strings.Builder
+func (in *Interp) sprintf(format string, args Slice, wrapped **Iface) Str {
+	var sb symBuilder
+	sb.in = in
 	ai := 0
 	for i := 0; i < len(format); i++ {
 		ch := format[i]
@@ -350,7 +353,11 @@ func (in *Interp) sprintf(format string, args Slice, wrapped **Iface) string {
 			}
 			verb = 'v'
 		}
-		sb.WriteString(in.fmtArg(verb, arg))
+		if sv, ok := arg.V.(Str); ok && (verb == 's' || verb == 'v') && arg.T != nil && isString(arg.T) && in.findMethod(arg.T, nil, "String") == nil && in.findMethod(arg.T, nil, "Error") == nil {
+			sb.WriteStr(sv)
+		} else {
+			sb.WriteString(in.fmtArg(verb, arg))
+		}
 	}
 	if ai < args.Len {
 		sb.WriteString("%!(EXTRA ")
@@ -367,8 +374,26 @@ func (in *Interp) sprintf(format string, args Slice, wrapped **Iface) string {
 		}
 		sb.WriteString(")")
 	}
-	return sb.String()
+	return sb.Str()
 }
+
+// symBuilder concatenates concrete and symbolic string pieces.
+type symBuilder struct {
+	in *Interp
+	b  []*smt.Term
+}
+
+func (s *symBuilder) WriteByte(c byte) error {
+	s.b = append(s.b, s.in.C.Const(8, uint64(c)))
+	return nil
+}
+func (s *symBuilder) WriteString(x string) {
+	for i := 0; i < len(x); i++ {
+		s.b = append(s.b, s.in.C.Const(8, uint64(x[i])))
+	}
+}
+func (s *symBuilder) WriteStr(x Str) { s.b = append(s.b, s.in.strBytes(x)...) }
+func (s *symBuilder) Str() Str       { return s.in.normStr(s.b) }
 
 func (in *Interp) fmtArg(verb byte, arg Iface) string {
 	if arg.T == nil {
@@ -560,4 +585,24 @@ func (in *Interp) renderObs(v Value, m []uint64) string {
 		return strconv.Quote(string(b))
 	}
 	return fmt.Sprintf("<%T>", v)
+}
+
+// stubDiverged reports whether, under model m, some uninterpreted conversion's
+// error flag differs from what the real function returns on the model's bytes
+// (such a path is an over-approximation the native run cannot follow).
+func (in *Interp) stubDiverged(m []uint64) bool {
+	for _, sf := range in.P.stubFlags {
+		b := make([]byte, sf.Arg.Len())
+		for i := range b {
+			b[i] = byte(smt.Eval(in.strAt(sf.Arg, i), m, nil))
+		}
+		flag := smt.Eval(sf.Flag, m, nil) == 1
+		if _, decided := in.P.known[sf.Flag]; !decided {
+			continue
+		}
+		if flag != nativeNumErr(sf.Fn, string(b)) {
+			return true
+		}
+	}
+	return false
 }
